@@ -18,7 +18,7 @@ LEVEL_NOTE = ("Trusted: the seam interposes the libc entry points listed in DESI
 RULE = ("case = generated project x configuration point; one fault-free --check run plus one run per sampled/enumerated "
         "(operation k, action) with action in {fail errno, short, eintr, kill_before, kill_after, sig_before, sig_after}. "
         "Non-trivial = run with a fired fault or a distinct configuration point; distinct = (world, k, action, errno).")
-PROBES = ["lock_corrupt", "lock_valid", "cache_off", "error_config", "no_missing_refs", "fault_fired", "killed", "signalled"]
+PROBES = ["tmpdir_missing", "lock_corrupt", "lock_valid", "cache_off", "error_config", "no_missing_refs", "fault_fired", "killed", "signalled"]
 ASSUMPTIONS = ["stat/open-for-read/readdir are not modifications"]
 DEADLINE = {"quick": 200, "thorough": 3000}
 
@@ -74,6 +74,9 @@ def gen(rng):
     knobs = {"threads": rng.randrange(1, 5), "config_arg": rng.choice(["rel", "abs"]), "cwd": rng.choice(["proj", "proj", "outside", "/"])}
     if wm.get("knob_cfg"):
         knobs["config_name"] = wm.pop("knob_cfg")
+    if rng.random() < 0.2:
+        knobs["tmpdir"] = rng.choice(["no_such_tmp", "cache/run-1000/tmp", "outside/newtmp"])
+        tags.append("tmpdir_missing")
     base = {"seed": rng.getrandbits(48) | 1, "perm": True, "faults": []}
     return wm, knobs, base, tags
 
